@@ -125,6 +125,83 @@ def arb_ops(tables, seed, count, prefix="A"):
     return ops
 
 
+def crypto_ops(seed, count, prefix="K"):
+    """AES-SIV (Tink) and encoding/base64 against their Lean models, byte for byte:
+    encrypt / decrypt at API level for every short length and block boundary, damaged ciphertexts and keys,
+    base64 texts (valid, wrapped, damaged), key-file contents, and whole lines in real encrypt mode"""
+    import base64 as b64
+    rng = SplitMix(seed ^ 0xC0DE)
+    ops = []
+
+    def rbytes(n):
+        return bytes(rng.below(256) for _ in range(n))
+
+    keys = [bytes((i * 7 + 3) % 256 for i in range(64)), bytes(64), bytes([255]) * 64] + [rbytes(64) for _ in range(3)]
+    lens = list(range(0, 50)) + [63, 64, 65, 79, 80, 81, 127, 128, 129, 255, 256, 257, 1000, 4097]
+    texts = ["", "a", "é", "\U0001F600", "0123456789abcdef", "0123456789abcdef0", "x" * 31, "x" * 32, "x" * 33, "%s%d", "\x00", "\x00" * 16, "\x80".encode("latin1").decode("latin1")]
+    for i, n in enumerate(lens):
+        k = keys[i % len(keys)]
+        ops.append(("%se%d" % (prefix, i), ["encrt", k.hex(), rbytes(n).hex()]))
+        ops.append(("%sz%d" % (prefix, i), ["encrt", keys[0].hex(), bytes(n).hex()]))
+    for i, t in enumerate(texts):
+        ops.append(("%st%d" % (prefix, i), ["encrt", keys[0].hex(), t.encode("utf-8").hex()]))
+    for i, kl in enumerate([0, 1, 10, 16, 32, 48, 63, 65, 128]):
+        ops.append(("%skl%d" % (prefix, i), ["encrt", rbytes(kl).hex(), b"abc".hex()]))
+        ops.append(("%skd%d" % (prefix, i), ["dec", rbytes(kl).hex(), rbytes(32).hex()]))
+    for i in range(count):
+        k = keys[rng.below(len(keys))]
+        pt = rbytes(rng.choice([0, 1, 5, 15, 16, 17, 31, 32, 33, 40, 100]))
+        kind = "ftaks"[i % 5]
+        ops.append(("%sm%d" % (prefix, i), ["tamper", k.hex(), pt.hex(), kind, str(rng.below(1 << 20))]))
+        ops.append(("%sd%d" % (prefix, i), ["dec", k.hex(), rbytes(rng.choice([0, 1, 15, 16, 17, 32, 33])).hex()]))
+    # base64 texts
+    b64texts = [b"", b"=", b"==", b"====", b"A", b"AA", b"AAA", b"AAAA", b"AA==", b"AA=", b"AAA=", b"A===", b"AA==AA==", b"AAAA=", b"AA==\n", b"AA=\n=", b"AA\r\n==", b"\nAA==", b"AA== ",
+                b" AA==", b"A A==", b"AB==", b"AAB=", b"AP==", b"AA-_", b"AA+/", b"AA\t==", b"AA==\n\n", b"AA=A", b"A=AA", b"=AAA", b"\xc3\xa9AA", b"AA\x00A", b"QUJD", b"QUJDRA==", b"QUJDREU=", b"QUJDREVG"]
+    for i in range(count):
+        raw = rbytes(rng.choice([0, 1, 2, 3, 4, 5, 16, 17, 18, 63, 64, 65]))
+        ops.append(("%sbe%d" % (prefix, i), ["b64e", raw.hex()]))
+        t = bytearray(b64.b64encode(raw))
+        m = rng.below(8)
+        if m == 0 and t:
+            t[rng.below(len(t))] = rng.choice(list(b"=-_ \n\r\t*\xff\x80AZaz09+/"))
+        elif m == 1:
+            pos = rng.below(len(t) + 1)
+            t[pos:pos] = rng.choice([b"\n", b"\r\n", b"\r", b" ", b"\n\n", b"="])
+        elif m == 2 and t:
+            del t[rng.below(len(t))]
+        elif m == 3:
+            t = t.rstrip(b"=")
+        elif m == 4 and len(t) >= 2 and t[-1:] == b"=":
+            # non-zero unused bits in the last sextet before the padding
+            j = len(t.rstrip(b"=")) - 1
+            alpha = b"ABCDEFGHIJKLMNOPQRSTUVWXYZabcdefghijklmnopqrstuvwxyz0123456789+/"
+            t[j] = alpha[(alpha.index(t[j]) | (1 + rng.below(3))) % 64]
+        elif m == 5:
+            t += rng.choice([b"=", b"A", b"\n", b"AAAA", b"AA=="])
+        b64texts.append(bytes(t))
+    for i, t in enumerate(b64texts):
+        ops.append(("%sbd%d" % (prefix, i), ["b64d", t.hex()]))
+    # key-file contents
+    good = b64.b64encode(keys[3])
+    contents = [good, good + b"\n", good + b"\r\n", b"\n" + good, good[:40] + b"\n" + good[40:], good + b" ", b" " + good, good[:-1], good[:-2] + b"==", good + b"=", b"", b"\n",
+                b64.b64encode(rbytes(63)), b64.b64encode(rbytes(65)), b64.b64encode(rbytes(32)), b64.b64encode(rbytes(66)), b64.b64encode(b""), keys[3], good.replace(b"/", b"_").replace(b"+", b"-"),
+                b64.b64encode(rbytes(64)).rstrip(b"="), good.decode().encode("utf-16"), b"\xef\xbb\xbf" + good, good + b"\x00", good * 2]
+    for i, c in enumerate(contents):
+        ops.append(("%srk%d" % (prefix, i), ["readkey", c.hex()]))
+    for i, k in enumerate(keys + [rbytes(63), rbytes(65), b""]):
+        ops.append(("%swk%d" % (prefix, i), ["writekey", k.hex()]))
+    # whole lines with real ciphertexts
+    lops, _ = line_ops(seed ^ 0x51, max(10, count // 4), prefix=prefix + "L")
+    seen = set()
+    for oid, f in lops:
+        if f[2] in seen:
+            continue
+        seen.add(f[2])
+        for j, c in enumerate([Cfg(enc=3), Cfg(enc=3, n=True, b=True, w=True, repl="R")]):
+            ops.append(("%s.y%d" % (oid, j), ["line", c.s(), f[2]]))
+    return ops
+
+
 def misc_ops(tables, seed, count, prefix="M"):
     """hash / email / plan / getop / scalar / print / parse"""
     rng = SplitMix(seed ^ 0x77)
@@ -513,6 +590,8 @@ def family_ops(fam, tables, seed, tier, intensify=False):
         return text_ops(seed, 2400 if big else 240)
     if fam == "stream":
         return stream_ops(seed, 400 if big else 40)
+    if fam == "crypto":
+        return crypto_ops(seed, 1200 if big else 120)
     if fam == "session":
         return session_ops(tables, seed, 400 if big else 24)
     raise KeyError(fam)
